@@ -110,12 +110,13 @@ Field(raw, k) == IF Len(Fields(raw)) >= k THEN Fields(raw)[k] ELSE ""
 IsRelativeSel(s) == Len(s) > 0 /\ Ch(s, 1) # "/" /\ ~StartsWith(s, "URL:")
 
 \* "well-formed gophermap files": what E.2 excludes, plus a link line without any item type
+IsDecimalPort(t) == IsDigits(t) \/ (Len(t) > 1 /\ Ch(t, 1) = "+" /\ IsDigits(Tail1(t)))
 WellFormedLine(raw) ==
     IsLink(raw) =>
         /\ Len(Fields(raw)) <= 4
         /\ Len(Field(raw, 1)) > 0                                          \* there is an item type
         /\ ~(Len(Field(raw, 1)) = 1 /\ Len(Field(raw, 2)) = 0)             \* name and selector both empty
-        /\ (Len(Field(raw, 4)) = 0 \/ IsDigits(Field(raw, 4)))             \* decimal port
+        /\ (Len(Field(raw, 4)) = 0 \/ IsDecimalPort(Field(raw, 4)))       \* decimal port (any spelling: 0, 00, 0070, +70)
 WellFormed(gm) == \A i \in 1..Len(gm.lines) : WellFormedLine(gm.lines[i])
 
 RefLine(gm, raw) ==
@@ -125,7 +126,9 @@ RefLine(gm, raw) ==
          IN [type |-> Ch(Field(raw, 1), 1), name |-> name,
              sel  |-> IF IsRelativeSel(s0) THEN RefBase(gm) \o "/" \o s0 ELSE s0,
              host |-> IF Len(Field(raw, 3)) > 0 THEN SomeS(Field(raw, 3)) ELSE NoS,
-             port |-> IF Len(Field(raw, 4)) > 0 THEN SomeS(NatToStr(ParseNat(Field(raw, 4)))) ELSE NoS]
+             \* a WRITTEN port is listed as written (numerically: 0, 00 -> 0; 0070, +70 -> 70); only an EMPTY or
+             \* absent field means this server's port
+             port |-> IF Len(Field(raw, 4)) > 0 THEN SomeS(NatToStr(ParseInt(Field(raw, 4)))) ELSE NoS]
 RefEntries(gm) == [i \in 1..Len(gm.lines) |-> RefLine(gm, gm.lines[i])]
 
 (* ------------------------- protocol-independent canonical rows ------------------------- *)
@@ -136,8 +139,14 @@ Row(kind, type, name, form, host, port, sel, url) ==
     [kind |-> kind, type |-> type, name |-> name, form |-> form, host |-> host, port |-> port, sel |-> sel, url |-> url]
 
 \* what every protocol must show for reference entry r: missing host / port mean THIS server
-Expected(r, srv) ==
-    IF r.type = "i" THEN Row("info", "i", r.name, "none", "", "", "", "")
+\* In the Gopher views an info line shows all five fields too (E.2: fake selector, host (NULL), port 0 for a
+\* tab-less line; the written fields for an explicit `i` link line); the other protocols show its text only.
+Expected(r, srv, p) ==
+    IF r.type = "i"
+    THEN (IF p \in {"G", "GP"}
+          THEN Row("info", "i", r.name, "none", IF r.host.s THEN r.host.v ELSE srv.host,
+                   IF r.port.s THEN r.port.v ELSE srv.port, r.sel, "")
+          ELSE Row("info", "i", r.name, "none", "", "", "", ""))
     ELSE IF IsURLSel(r.sel) THEN Row(KindOf(r.type), r.type, r.name, "url", "", "", "", URLOf(r.sel))
     ELSE Row(KindOf(r.type), r.type, r.name, "gopher",
              IF r.host.s THEN r.host.v ELSE srv.host, IF r.port.s THEN r.port.v ELSE srv.port, r.sel, "")
@@ -146,7 +155,7 @@ Expected(r, srv) ==
 \* link relative to this server (href="/sel"); "gopher" = a gopher:// URL; "url" = any other URL
 CanonObs(o, srv) ==
     IF o.form = "fields"
-    THEN (IF o.type = "i" THEN Row("info", "i", o.name, "none", "", "", "", "")
+    THEN (IF o.type = "i" THEN Row("info", "i", o.name, "none", o.host, o.port, o.sel, "")
           ELSE IF IsURLSel(o.sel) THEN Row(KindOf(o.type), o.type, o.name, "url", "", "", "", URLOf(o.sel))
           ELSE Row(KindOf(o.type), o.type, o.name, "gopher", o.host, o.port, o.sel, ""))
     ELSE IF o.form = "none" THEN Row("info", "i", o.name, "none", "", "", "", "")
@@ -163,24 +172,26 @@ RowAgrees(c, x) == c.kind = x.kind /\ TypeAgrees(c, x) /\ c.name = x.name /\ Sam
 LineClause(c, x, raw) ==
     IF c.kind # x.kind /\ (c.kind = "info" \/ x.kind = "info") THEN "InfoIffNoTab"
     ELSE IF c.kind # x.kind \/ ~TypeAgrees(c, x) \/ c.name # x.name THEN "TypeAndDescription"
+    ELSE IF ~IsLink(raw) /\ ~SameTarget(c, x) THEN "InfoLineFields"
     ELSE IF c.form # x.form \/ c.sel # x.sel \/ c.url # x.url
     THEN (IF Len(Field(raw, 2)) = 0 THEN "SelectorDefaultsToDescription"
           ELSE IF IsRelativeSel(Field(raw, 2)) THEN "RelativeResolved" ELSE "SelectorVerbatim")
-    ELSE IF c.host # x.host \/ c.port # x.port
-    THEN (IF Len(Field(raw, 3)) = 0 \/ Len(Field(raw, 4)) = 0 THEN "MissingHostPortMeanThisServer" ELSE "HostPortVerbatim")
+    \* a field that is WRITTEN is listed as written; only an empty / absent one means this server
+    ELSE IF c.host # x.host THEN (IF Len(Field(raw, 3)) = 0 THEN "MissingHostPortMeanThisServer" ELSE "HostPortVerbatim")
+    ELSE IF c.port # x.port THEN (IF Len(Field(raw, 4)) = 0 THEN "MissingHostPortMeanThisServer" ELSE "HostPortVerbatim")
     ELSE "ok"
 
 \* O: [ok, rows] lexed from protocol p's listing.  The Gopher view names the clause of the line that
 \* fails; a view of another protocol that differs from the reference fails SameInEveryProtocol.
 Judge(gm, p, O) ==
     LET R == RefEntries(gm)
-        bad == {i \in 1..Len(R) : ~RowAgrees(CanonObs(O.rows[i], gm.srv), Expected(R[i], gm.srv))}
+        bad == {i \in 1..Len(R) : ~RowAgrees(CanonObs(O.rows[i], gm.srv), Expected(R[i], gm.srv, p))}
     IN IF ~O.ok THEN "Answered"
        ELSE IF Len(O.rows) # Len(gm.lines) THEN "LineForLine"
        ELSE IF bad = {} THEN "ok"
        ELSE IF p \notin {"G", "GP"} THEN "SameInEveryProtocol"
        ELSE LET i == CHOOSE k \in bad : \A j \in bad : k <= j IN
-            LineClause(CanonObs(O.rows[i], gm.srv), Expected(R[i], gm.srv), gm.lines[i])
+            LineClause(CanonObs(O.rows[i], gm.srv), Expected(R[i], gm.srv, p), gm.lines[i])
 
 (* --------------- input classes on which a coded deviation can show (for triage) --------------- *)
 HasRelative(gm) == \E i \in 1..Len(gm.lines) : LET raw == gm.lines[i] IN
